@@ -11,7 +11,7 @@ if [ -n "$(git -C /repo status --porcelain)" ]; then echo "/repo is not clean" >
 checks="$*"
 if [ -z "$checks" ]; then checks=$(python3 -c "import json,sys; print(' '.join(json.load(open('$dir/meta.json')).get('checks',[])))"); fi
 git -C /repo apply "$dir/patch.diff" || { echo "patch does not apply" >&2; exit 2; }
-trap 'git -C /repo checkout -- . ' EXIT
+trap 'git -C /repo checkout -- . ; (cd /verif/mc && cargo build --release --offline >/dev/null 2>&1; cargo build --profile chk --offline >/dev/null 2>&1)' EXIT
 for c in $checks; do
   out=$(/verif/bin/check $c --tier quick 2>&1); code=$?
   keys=$(echo "$out" | grep -E "^  key:" | sed 's/^  key: //' | head -4 | tr '\n' ';')
